@@ -33,6 +33,22 @@ fn sv(v: &[&str]) -> Vec<String> {
     v.iter().map(|s| s.to_string()).collect()
 }
 
+/// run the program on the real builder and hand back the model if it is accepted
+pub fn build_real(p: &Program) -> Result<varpro::model::SeparableModel<f64>, String> {
+    let f: SliceFn<f64> = Arc::new(|x: &DVector<f64>, a: &[f64]| x.map(|v| (0.1 * v + 0.01 * a.iter().sum::<f64>()).sin()));
+    let mut b = SeparableModelBuilder::<f64>::new(p.names.clone());
+    for c in &p.calls {
+        b = match c {
+            BCall::Function { params, arity } => add_function(b, params.clone(), *arity, f.clone()),
+            BCall::Deriv { name, arity } => add_deriv(b, name.clone(), *arity, f.clone()),
+            BCall::Invariant => b.invariant_function(|x: &DVector<f64>| x.map(|v| 1.0 + 0.05 * v)),
+            BCall::X(n) => b.independent_variable(DVector::from_fn(*n, |i, _| i as f64)),
+            BCall::Guess(n) => b.initial_parameters((0..*n).map(|i| 0.5 + i as f64).collect()),
+        };
+    }
+    b.build().map_err(|e| format!("{e:?}"))
+}
+
 /// run the program on the real builder; Ok(()) or the error kind (variant name)
 pub fn run_real(p: &Program) -> Result<(), String> {
     let f: SliceFn<f64> = Arc::new(|x: &DVector<f64>, a: &[f64]| x.map(|v| v + a.iter().sum::<f64>()));
@@ -348,7 +364,7 @@ fn random_call(rng: &mut Rng, names: &[String]) -> BCall {
     }
 }
 
-fn mutate(rng: &mut Rng, p: &mut Program) {
+pub fn mutate(rng: &mut Rng, p: &mut Program) {
     let n = p.calls.len();
     match rng.below(8) {
         0 if n > 0 => {
@@ -490,7 +506,7 @@ pub fn run(ctx: &Ctx) {
     ctx.assume("the specification is silent about empty-string names; the generators do not produce them");
     *ctx.exhaustive.lock().unwrap() = Some(true);
     ctx.run_cases("exhaustive", 6 * 26, t.pick(120.0, 1200.0), |_r, c, o| exhaustive_case(c, o, maxlen));
-    ctx.run_cases("guided", t.pick(40000, 1000000), t.pick(20.0, 200.0), guided_case);
-    ctx.run_cases("random", t.pick(20000, 500000), t.pick(10.0, 100.0), random_case);
+    ctx.run_cases("guided", t.pick(150000, 1000000), t.pick(20.0, 200.0), guided_case);
+    ctx.run_cases("random", t.pick(60000, 500000), t.pick(10.0, 100.0), random_case);
     ctx.extra("exhaustive_bound", json!({"max_calls": maxlen, "name_lists": 6, "tokens": 25}));
 }
